@@ -192,7 +192,8 @@ def Eqn.build : Eqn → List Item
 /-- `Equation.Filter` -/
 def Eqn.filter (e : Eqn) : Frag := .filter e.build
 
-/-- `Equation.Script`: a bare path becomes `path exists true` -/
+/-- `Equation.Script`: a bare path becomes `path exists true`. DEVIATION (C14-bare-path): only the
+parser's form `{result: Expr}`, not `Get(path)` (`un get …`), which builds the same template otherwise -/
 def Eqn.script : Eqn → List Item
   | .val (.expr x) => Eqn.build (.bin Gen.JpOps.op_exists (.val (.expr x)) (.val (.bool true)))
   | e => e.build
